@@ -76,6 +76,8 @@ func init() {
 			File2: "poc/engine/massdb/massdb.v1/hashmap.go", Old2: "func (hm *HashMapB) Get(key pocutil.PoCValue) ([]byte, []byte, error) {\n\tvar recordSize = hm.recordSize\n\tvar proof [16]byte\n", New2: "func (hm *HashMapB) Get(key pocutil.PoCValue) ([]byte, []byte, error) {\n\tvar recordSize = hm.recordSize\n\tvar proof = hm.scratch[:]\n"},
 		{Name: "HashMapB.Get allocates its buffer with make", Kill: false, File: "poc/engine/massdb/massdb.v1/hashmap.go",
 			Old: "func (hm *HashMapB) Get(key pocutil.PoCValue) ([]byte, []byte, error) {\n\tvar recordSize = hm.recordSize\n\tvar proof [16]byte\n", New: "func (hm *HashMapB) Get(key pocutil.PoCValue) ([]byte, []byte, error) {\n\tvar recordSize = hm.recordSize\n\tvar proof = make([]byte, 16)\n"},
+		{Name: "HashMapB.Get returns appended copies", Kill: false, File: "poc/engine/massdb/massdb.v1/hashmap.go",
+			Old: "\treturn proof[:recordSize], proof[recordSize : recordSize*2], nil\n}\n\nfunc (hm *HashMapB) Set", New: "\treturn append([]byte(nil), proof[:recordSize]...), append([]byte(nil), proof[recordSize:recordSize*2]...), nil\n}\n\nfunc (hm *HashMapB) Set"},
 	}
 }
 
